@@ -162,31 +162,19 @@ decreasing_by omega
 /-- `fetch_prefix()` entered with `m_format_str = pos`: events appended, new `m_format_str`,
     and the byte it returns (`*m_format_str`) -/
 def fetchPrefix (fmt : List Nat) (pos : Nat) : Outcome (List Event × Nat × Nat) :=
-  match fetchLoop fmt { m := pos, next := pos, out := [] } with
-  | .ok s =>
-      -- `if (next != m_format_str) append(m_format_str, next - m_format_str); m_format_str = next;`
-      let out := if s.next ≠ s.m then .append (slice fmt s.m s.next) :: s.out else s.out
-      match rd fmt s.next with
-      | none => .oob
-      | some c => .ok (out.reverse, s.next, c)
-  | .throw e => .throw e
-  | .assertFail w => .assertFail w
-  | .ub w => .ub w
-  | .oob => .oob
-  | .stuck => .stuck
+  (fetchLoop fmt { m := pos, next := pos, out := [] }).bind fun s =>
+    -- `if (next != m_format_str) append(m_format_str, next - m_format_str); m_format_str = next;`
+    let out := if s.next ≠ s.m then .append (slice fmt s.m s.next) :: s.out else s.out
+    match rd fmt s.next with
+    | none => .oob
+    | some c => .ok (out.reverse, s.next, c)
 
 /-- `next_format()`: events, new position, and whether a specifier follows -/
 def nextFormat (fmt : List Nat) (pos : Nat) : Outcome (List Event × Nat × Bool) :=
-  match fetchPrefix fmt pos with
-  | .ok (ev, p, c) =>
-      if c = 0 then .ok (ev, p, false)
-      else if c = 123 then .ok (ev, p, true)
-      else .throw .badFormat                            -- "Error parsing format string"
-  | .throw e => .throw e
-  | .assertFail w => .assertFail w
-  | .ub w => .ub w
-  | .oob => .oob
-  | .stuck => .stuck
+  (fetchPrefix fmt pos).bind fun (ev, p, c) =>
+    if c = 0 then .ok (ev, p, false)
+    else if c = 123 then .ok (ev, p, true)
+    else .throw .badFormat                              -- "Error parsing format string"
 
 /-! ### apply_format -/
 
@@ -200,41 +188,16 @@ def formatterId (spec : FormatSpec) (index : Nat) : Nat × Nat :=
 
 /-- the `while (data.next_format())` loop of the variadic `apply_format` -/
 def applyLoop (fmt : List Nat) (n : Nat) (fs : Formatters) (pos index : Nat) : Outcome (List Event) :=
-  match nextFormat fmt pos with
-  | .ok (ev, p, more) =>
+  (nextFormat fmt pos).bind fun (ev, p, more) =>
     if !more then .ok ev
     else
-      match parseFormat fmt p with
-      | .ok (spec, p') =>
-        let (id, index') := formatterId spec index
-        if id ≥ n then .throw .outOfRange               -- "Parameter index out of range"
+      (parseFormat fmt p).bind fun (spec, p') =>
+        if (formatterId spec index).1 ≥ n then .throw .outOfRange     -- "Parameter index out of range"
         else
-          match fs id spec with
-          | .ok ev' =>
+          (fs (formatterId spec index).1 spec).bind fun ev' =>
             if _h : pos < p' ∧ p' ≤ fmt.length then
-              match applyLoop fmt n fs p' index' with
-              | .ok rest => .ok (ev ++ ev' ++ rest)
-              | .throw e => .throw e
-              | .assertFail w => .assertFail w
-              | .ub w => .ub w
-              | .oob => .oob
-              | .stuck => .stuck
+              (applyLoop fmt n fs p' (formatterId spec index).2).bind fun rest => .ok (ev ++ ev' ++ rest)
             else .stuck
-          | .throw e => .throw e
-          | .assertFail w => .assertFail w
-          | .ub w => .ub w
-          | .oob => .oob
-          | .stuck => .stuck
-      | .throw e => .throw e
-      | .assertFail w => .assertFail w
-      | .ub w => .ub w
-      | .oob => .oob
-      | .stuck => .stuck
-  | .throw e => .throw e
-  | .assertFail w => .assertFail w
-  | .ub w => .ub w
-  | .oob => .oob
-  | .stuck => .stuck
 termination_by fmt.length + 1 - pos
 decreasing_by omega
 
@@ -242,13 +205,7 @@ decreasing_by omega
     throws as soon as a specifier starts, without parsing it) -/
 def applyFormat (fmt : List Nat) (n : Nat) (fs : Formatters) : Outcome (List Event) :=
   if n = 0 then
-    match nextFormat fmt 0 with
-    | .ok (ev, _, more) => if more then .throw .outOfRange else .ok ev
-    | .throw e => .throw e
-    | .assertFail w => .assertFail w
-    | .ub w => .ub w
-    | .oob => .oob
-    | .stuck => .stuck
+    (nextFormat fmt 0).bind fun (ev, _, more) => if more then .throw .outOfRange else .ok ev
   else applyLoop fmt n fs 0 0
 
 /-- the events a format call produces; `none` is the null format string
